@@ -148,6 +148,50 @@ func c07Allowed(args [][]byte) ([][]byte, []byte) {
 	return final, out
 }
 
+// the same with a UserIDForSender callback that answers (nil, nil) for a sender it cannot resolve
+// (what pseudo-ID queriers do) instead of an error
+func c07QuerierNil(roomID spec.RoomID, senderID spec.SenderID) (*spec.UserID, error) {
+	u, err := spec.NewUserID(string(senderID), true)
+	if err != nil {
+		return nil, nil
+	}
+	return u, nil
+}
+
+func c07AllowedNilQ(args [][]byte) ([][]byte, []byte) {
+	verImpl, err := gm.GetRoomVersion(gm.RoomVersion(args[0]))
+	if err != nil {
+		return args, B("unknown-version")
+	}
+	ev, err := verImpl.NewEventFromTrustedJSON(args[2], false)
+	if err != nil {
+		return args, B("unparsed")
+	}
+	auths := []gm.PDU{}
+	for _, a := range args[3:] {
+		ae, err := verImpl.NewEventFromTrustedJSON(a, false)
+		if err != nil {
+			return args, B("unparsed")
+		}
+		auths = append(auths, ae)
+	}
+	final := append([][]byte{}, args...)
+	final[1] = c07SigTable(args[2], args[3:])
+	out := func() (out []byte) {
+		defer func() {
+			if r := recover(); r != nil {
+				out = B("panic")
+			}
+		}()
+		provider, err := gm.NewAuthEvents(auths)
+		if err != nil {
+			return B("err")
+		}
+		return c07Class(gm.Allowed(ev, provider, c07QuerierNil))
+	}()
+	return final, out
+}
+
 // ---------------------------------------------------------------------------------------------
 // event construction
 
@@ -449,7 +493,16 @@ func (c *Ctx) c07Run(ver string, ev []byte, auths [][]byte, desc string) []byte 
 		c.Count("skipped/unparsed")
 		return B("unparsed")
 	}
-	return c.Run("c07.allowed", c07Args(ver, ev, auths), "C07.allowed", c07PropOp, desc)
+	out := c.Run("c07.allowed", c07Args(ver, ev, auths), "C07.allowed", c07PropOp, desc)
+	// every case in which the callback matters (an error-class verdict), and a sample of the
+	// others, is also run with the callback answering (nil, nil)
+	if string(out) == "err" || c.Rng.Intn(40) == 0 {
+		c.Count("nil-querier")
+		// (correspondence only: the callback changes the error class, never accept / reject, which
+		// the specification oracle has already judged on the run above)
+		c.Run("c07.allowed_nilq", c07Args(ver, ev, auths), "C07.allowed_nilq", "", "nil-querier "+desc)
+	}
+	return out
 }
 
 var c07PropOp = "C07.prop.allowed"
@@ -966,12 +1019,23 @@ func c07GenThirdParty(c *Ctx) {
 	for _, ver := range c07Versions {
 		for _, scn := range []string{"good", "good-second-key", "good-urlsafe", "wrong-key", "tampered", "mxid-mismatch", "no-event", "wrong-token",
 			"no-sigs", "non-ed-keyid", "banned", "other-sender", "single-public-key", "no-keys", "join-with-tpi", "sender-not-joined",
-			"bad-keys-type", "bad-signed-type", "tpi-null", "tpi-empty", "target-joined", "remote-unfederated", "leave-with-tpi"} {
+			"bad-keys-type", "bad-signed-type", "tpi-null", "tpi-empty", "target-joined", "remote-unfederated", "leave-with-tpi",
+			"empty-token", "missing-token", "empty-token-join"} {
 			n++
 			k1, k2 := c07NewKey(c.Rng), c07NewKey(c.Rng)
 			sender, target, token := "@alice:hs1", "@bob:hs3", "tok"+fmt.Sprint(n)
 			s := c07NewScene(ver, fmt.Sprintf("t%d", n), sender, nil, J{"users": J{sender: 50}, "invite": pick(c.Rng, []int{0, 50, 60})}, "join")
+			switch scn {
+			case "empty-token", "empty-token-join":
+				// a third-party invite without a token names no m.room.third_party_invite event:
+				// it is refused even when an event with the empty state key is supplied
+				token = ""
+			}
 			signedObj := J{"mxid": target, "token": token}
+			if scn == "missing-token" {
+				token = ""
+				signedObj = J{"mxid": target}
+			}
 			raw, _ := json.Marshal(signedObj)
 			signKey := k1
 			if scn == "wrong-key" {
@@ -1012,7 +1076,7 @@ func c07GenThirdParty(c *Ctx) {
 				tpiContent = J{"display_name": "b", "public_key": enc(k1.pub)}
 			case "no-keys":
 				tpiContent["public_keys"] = []interface{}{}
-			case "join-with-tpi":
+			case "join-with-tpi", "empty-token-join":
 				newMem = "join"
 			case "leave-with-tpi":
 				newMem = "leave"
@@ -1320,6 +1384,7 @@ func c07All(c *Ctx) {
 
 func init() {
 	RegisterImpl("c07.allowed", c07Allowed)
+	RegisterImpl("c07.allowed_nilq", c07AllowedNilQ)
 	RegisterProp("C07", c07All)
 }
 
